@@ -5,7 +5,9 @@
 # What ties these statements to the implementation is therefore the correspondence of T06 / T07: the real binary's
 # standard output / written files compared byte for byte with run_console / run_files / run7_*.
 # ./check T08 = proof audit of both props files (full .vo build, one `Closed under the global context` per theorem,
-# forbidden-word scan; coqchk in the thorough tier) + a run of that correspondence stage (gen/t06_text.py: run_stage).
+# forbidden-word scan; coqchk in the thorough tier) + a run of that correspondence stage (gen/t06_text.py: run_stage), in which
+# a share of the worlds pass the filter ARMORED or MALFORMED and are evaluated through T08_filter.run_console_ft / run_files_ft
+# (coq/corr/T08_corr.v: the C18 row of T08).
 import json
 from common import *
 import t06_text as T
@@ -43,7 +45,7 @@ def audit_second(run):
 
 
 def main(run):
-    info = proof_stage(run, "T08", extra_targets=["corr/T06_corr.vo", "corr/T07_corr.vo"])
+    info = proof_stage(run, "T08", extra_targets=["corr/T06_corr.vo", "corr/T07_corr.vo", "corr/T08_corr.vo"])
     info2, ok2 = audit_second(run)
     run.notes["props_files"] = {"coq/props/T08.v": len(info["theorems"]), "coq/props/%s.v" % SECOND: len(info2["theorems"])}
     # one list of theorems in the evidence; the second file counts only if its own audit passed
